@@ -1,5 +1,7 @@
 //! axv — conformance harness binding the TLA+ specification in /verif/spec to the real `ax` code.
+mod insn;
 mod interp;
+mod native;
 
 fn usage() -> ! {
     eprintln!("usage: axv run <scenarios.ndjson> <trace.ndjson> [--skip N]");
@@ -24,6 +26,30 @@ fn main() {
             }
             interp::start_watchdog(4);
             if let Err(e) = interp::run_file(&args[2], &args[3], skip) {
+                eprintln!("axv: io error: {e}");
+                std::process::exit(2);
+            }
+        }
+        "forms" => {
+            // axv forms <seed> <out.json>: probe which (Code, reg|mem) forms execute on the current tree
+            let seed: u64 = args.get(2).and_then(|s| s.parse().ok()).unwrap_or(1);
+            let v = insn::probe_forms(seed);
+            std::fs::write(args.get(3).map(|s| s.as_str()).unwrap_or("forms.json"), serde_json::to_string_pretty(&v).unwrap()).unwrap();
+        }
+        "candidates" => {
+            for c in insn::candidate_codes() {
+                println!("{c:?}");
+            }
+        }
+        "insn" => {
+            // axv insn <family> <per_form> <seed> <forms.json> <out_prefix> [native|nonative]
+            if args.len() < 7 {
+                usage();
+            }
+            let per: usize = args[3].parse().unwrap_or(1);
+            let seed: u64 = args[4].parse().unwrap_or(1);
+            let native = args.get(7).map(|s| s != "nonative").unwrap_or(true);
+            if let Err(e) = insn::run_family(&args[2], per, seed, &args[5], &args[6], native) {
                 eprintln!("axv: io error: {e}");
                 std::process::exit(2);
             }
